@@ -238,7 +238,7 @@ pub fn tail_dates(disk: &Disk) -> Vec<Date> {
         }
     }
     let mut out = vec![];
-    for (_name, data) in disk.list_files(cache_dir_key()) {
+    for (_name, data) in disk.all_files().into_iter().filter(|(p, _)| p.starts_with("/simfs/home/")) {
         let text = String::from_utf8_lossy(&data);
         let lines: Vec<&str> = text.lines().filter(|l| !l.trim().is_empty()).collect();
         for l in lines.iter().rev().take(3) {
@@ -613,6 +613,18 @@ impl Engine for C14 {
             });
             st.bump("probe.cache_directory_also_holds_foreign_files_with_wrong_rates");
         }
+        // Whatever earlier runs left is presented the way an OLDER version of the tool would have left
+        // it: in ~/.acb. (A no-op unless the code under test keeps its cache somewhere else - then the
+        // victim meets a legacy directory, and whatever it does with it is part of its write.)
+        with_world(|w| {
+            let legacy = cache_dir_key();
+            let moved: Vec<(String, Vec<u8>)> = w.fs.disk.all_files().into_iter().filter(|(p, _)| p.starts_with("/simfs/home/") && !p.starts_with(&format!("{}/", legacy)) && p.rsplit('/').next().map(|b| b.starts_with("rates-")).unwrap_or(false)).collect();
+            for (p, data) in moved {
+                let base = p.rsplit('/').next().unwrap_or("x").to_string();
+                w.fs.disk.remove_file_quietly(&p);
+                w.fs.disk.put_file(&format!("{}/{}", legacy, base), &data);
+            }
+        });
         let d0 = with_world(|w| w.fs.disk.clone());
         let victim = run_step(&boc, &sc.victim, sc.max_write, sc.hash_seed);
         st.bump("sim.processes");
